@@ -20,6 +20,8 @@ import (
 	"compress/gzip"
 	"io"
 	"os"
+	"path/filepath"
+	"strings"
 	"sync"
 
 	"github.com/spf13/afero"
@@ -57,9 +59,21 @@ func NewFsPackageCache(dir string, fs afero.Fs) *FsPackageCache {
 	}
 }
 
+// path returns the path of the cache file for the item with the given id. A
+// package file extension at the end of the id is not part of it. Nothing else
+// is cut off: ids that differ only after their last dot - the package sources
+// example.org/pkg:v1.2.3 and example.org/pkg:v1.2.4, which are ids under the
+// Never pull policy - must not share a cache file.
+func (c *FsPackageCache) path(id string) string {
+	for _, ext := range []string{cacheContentExt, XpkgExtension} {
+		id = strings.TrimSuffix(id, ext)
+	}
+	return filepath.Join(c.dir, id) + cacheContentExt
+}
+
 // Has indicates whether an item with the given id is in the cache.
 func (c *FsPackageCache) Has(id string) bool {
-	if fi, err := c.fs.Stat(BuildPath(c.dir, id, cacheContentExt)); err == nil && !fi.IsDir() {
+	if fi, err := c.fs.Stat(c.path(id)); err == nil && !fi.IsDir() {
 		return true
 	}
 	return false
@@ -69,7 +83,7 @@ func (c *FsPackageCache) Has(id string) bool {
 func (c *FsPackageCache) Get(id string) (io.ReadCloser, error) {
 	c.mu.RLock()
 	defer c.mu.RUnlock()
-	f, err := c.fs.Open(BuildPath(c.dir, id, cacheContentExt))
+	f, err := c.fs.Open(c.path(id))
 	if err != nil {
 		return nil, err
 	}
@@ -80,7 +94,7 @@ func (c *FsPackageCache) Get(id string) (io.ReadCloser, error) {
 func (c *FsPackageCache) Store(id string, content io.ReadCloser) error {
 	c.mu.Lock()
 	defer c.mu.Unlock()
-	cf, err := c.fs.Create(BuildPath(c.dir, id, cacheContentExt))
+	cf, err := c.fs.Create(c.path(id))
 	if err != nil {
 		return err
 	}
@@ -105,7 +119,7 @@ func (c *FsPackageCache) Store(id string, content io.ReadCloser) error {
 func (c *FsPackageCache) Delete(id string) error {
 	c.mu.Lock()
 	defer c.mu.Unlock()
-	err := c.fs.Remove(BuildPath(c.dir, id, cacheContentExt))
+	err := c.fs.Remove(c.path(id))
 	if os.IsNotExist(err) {
 		return nil
 	}
